@@ -430,6 +430,12 @@ func (c *Ctx) safePrefixed(v ssa.Value, taintedKeys map[string]bool, d int) bool
 				}
 			}
 			return false
+		case "(*strings.Builder).String":
+			// a local builder: what was written first decides where the result starts
+			if first := firstBuilderWrite(x); first != nil {
+				return c.safePrefixed(first, taintedKeys, d+1)
+			}
+			return false
 		case "fmt.Sprintf":
 			if f, ok := constArgStr(x, 0); ok {
 				if strings.HasPrefix(f, "/") && !strings.HasPrefix(f, "//") {
@@ -1179,4 +1185,43 @@ func cellsOf(fv *ssa.FreeVar, d int) ([]*ssa.Alloc, bool) {
 		}
 	}
 	return out, true
+}
+
+// firstBuilderWrite: for `b.String()` on a local strings.Builder, the string
+// (or constant byte, as a string constant) written by the write that precedes
+// every other write; nil when that is not determined.
+func firstBuilderWrite(str *ssa.Call) ssa.Value {
+	if len(str.Call.Args) == 0 {
+		return nil
+	}
+	b, ok := str.Call.Args[0].(*ssa.Alloc)
+	if !ok || b.Referrers() == nil {
+		return nil
+	}
+	var writes []*ssa.Call
+	for _, ref := range *b.Referrers() {
+		call, ok := ref.(*ssa.Call)
+		if !ok {
+			continue
+		}
+		switch Callee(call) {
+		case "(*strings.Builder).WriteString", "(*strings.Builder).WriteByte", "(*strings.Builder).WriteRune", "(*strings.Builder).Write":
+			writes = append(writes, call)
+		case "(*strings.Builder).Grow", "(*strings.Builder).String", "(*strings.Builder).Len", "(*strings.Builder).Cap":
+		default:
+			return nil // handed to something else that may write
+		}
+	}
+	for _, w := range writes {
+		first := true
+		for _, o := range writes {
+			if o != w && !InstrDominates(w, o) {
+				first = false
+			}
+		}
+		if first && Callee(w) == "(*strings.Builder).WriteString" {
+			return Arg(w, 1)
+		}
+	}
+	return nil
 }
